@@ -30,17 +30,32 @@ POINTER_CALLS = {"point_towards", "release_pointer", "update_set_incoming_pointe
 
 
 def check(model: Model, rep: Report, tier: str):
-    l1(model, rep)
-    l2(model, rep)
-    l3(model, rep)
-    l4(model, rep, tier)
-    l5(model, rep)
-    l6(model, rep)
-    l7(model, rep)
+    with rep.isolated():
+        l1(model, rep)
+    with rep.isolated():
+        l2(model, rep)
+    with rep.isolated():
+        l3(model, rep)
+    with rep.isolated():
+        l4(model, rep, tier)
+    with rep.isolated():
+        l5(model, rep)
+    with rep.isolated():
+        l6(model, rep)
+    with rep.isolated():
+        l7(model, rep)
+    with rep.isolated():
+        l9(model, rep)
+    rep.rule("C02.L10", "DeclarativeCircuit.operations (what every consumer reads) == the structure's decomposed_operations(), evaluated on every call: no stored listing "
+                        "in between (the structure also grows through the handles returned by add and through circuit_structure)")
+    from .common import front_delegation
+    with rep.isolated():
+        front_delegation(model, rep, "C02.L10", "DeclarativeCircuit", "operations", "decomposed_operations", True, "the listing read from a circuit is not always the current expansion of its structure")
     from .c05 import _k1_k2
     from .common import share_rule
-    share_rule(rep, model, _k1_k2, "C02.L8", "a nested sub-circuit is listed through its copy: every operation class's copy() keeps kind, qubits, "
-               "channels and duration strategy (= C05.K1/K2), so expansion in place lists the added leaves unchanged")
+    with rep.isolated():
+        share_rule(rep, model, _k1_k2, "C02.L8", "a nested sub-circuit is listed through its copy: every operation class's copy() keeps kind, qubits, "
+                   "channels and duration strategy (= C05.K1/K2), so expansion in place lists the added leaves unchanged")
 
 
 def flat_events(p: Path) -> List[Event]:
@@ -582,3 +597,109 @@ def l7(model: Model, rep: Report):
     okv = is_call_of(v, "add_sub_circuit") and v[1][1] == gs and (list(v[2]) + [x for _, x in v[3]]) == [("attr", circ, "circuit_structure")]
     rep.check(okv, "C02.L7", "IDeclarativeCircuit.add_declarative_circuit", g.loc, found=show(v), required="self.add_sub_circuit(circuit.circuit_structure)",
               what="a declarative circuit is not nested through the copying path", detail="declarative")
+
+
+# ---------------------------------------------------------------------------------------------
+def l9(model: Model, rep: Report):
+    """L9: the graph primitives attach exactly what they are given (L3 counts calls of append_pointer_to; this rule looks inside)."""
+    rep.rule("C02.L9", "graph primitives attach what they are given: append_pointers_to(endpoint, pointers) performs endpoint.point_towards(pointer) for EVERY element of "
+                       "the whole list on every body path (no test -- in particular no value comparison of operations -- can skip a node); append_pointer_to hands over exactly "
+                       "[pointer] under the given endpoint; GraphNode.point_towards records the successor and the predecessor unconditionally; get_next_pointers returns all successors")
+    from ..paths import find_calls
+    K = model.cls("CircuitGraphBranch")
+    f = K.resolve("append_pointers_to")
+    if f is None:
+        raise AnalysisError("CircuitGraphBranch.append_pointers_to not found")
+    names = [n for n in f.param_names if n != f.self_name]
+    endpoint, pointers = sym(names[0]), sym(names[1])
+    paths = PathEnumerator(Evaluator(model, inline_methods=False)).function_paths(f, self_cls=K)
+    construct = "CircuitGraphBranch.append_pointers_to"
+    rets = [p for p in paths if p.exit in ("return", "fall")]
+    if not rets:
+        raise AnalysisError(f"{construct}: no normal exit")
+    bad: List[str] = []
+    for p in rets:
+        loops = [e for e in p.events if e.kind == "loop" and e.term is not None and (e.term == pointers or (e.term[0] == "var" and e.term[3] == pointers))]
+        direct = [c for e in p.events if e.kind == "effect" and e.term is not None for c in find_calls(e.term, "point_towards")]
+        if not loops:
+            # a loop over something else (a slice, a filtered copy) or no loop at all
+            others = [show(e.term) for e in p.events if e.kind == "loop" and e.term is not None and find_calls_in_loop(e, "point_towards")]
+            bad.append(f"attaches over {others or 'nothing'} instead of the whole list '{names[1]}'" + (f" under {show(p.cond)[:60]}" if p.cond != TRUE else ""))
+            continue
+        if len(loops) > 1:
+            bad.append("the pointer list is walked more than once")
+        lp = loops[0]
+        elem = ("bound", "for", lp.node.lineno, show(lp.term))
+        for bp in lp.extra["paths"]:
+            calls = [c for e in bp.events if e.kind == "effect" and e.term is not None for c in find_calls(e.term, "point_towards")]
+            good = [c for c in calls if c[1] == ("attr", endpoint, "point_towards") and (list(c[2]) + [v for _, v in c[3]]) == [elem]]
+            if bp.exit not in ("fall", "continue") or len(good) != 1 or len(calls) != 1:
+                bad.append(f"a body path ({bp.exit} if {show(bp.cond)[:90]}) performs {[show(c)[:60] for c in calls] or 'no attach'}")
+    rep.check(not bad, "C02.L9", construct, f.loc, found="; ".join(sorted(set(bad))) or f"for p in {names[1]}: {names[0]}.point_towards(p) -- unconditional",
+              required="every given node attached under the given endpoint, on every path", what="a node handed to the graph can be skipped: " + "; ".join(sorted(set(bad))), detail="attach-all")
+    g = K.resolve("append_pointer_to")
+    if g is not None:
+        gn = [n for n in g.param_names if n != g.self_name]
+        ge, gp = sym(gn[0]), sym(gn[1])
+        gps = [p for p in PathEnumerator(Evaluator(model, inline_methods=False)).function_paths(g, self_cls=K) if p.exit in ("return", "fall")]
+        okg = bool(gps)
+        found = []
+        for p in gps:
+            cs = [c for e in p.events if e.kind == "effect" and e.term is not None for c in find_calls(e.term, "append_pointers_to")]
+            pt = [c for e in p.events if e.kind == "effect" and e.term is not None for c in find_calls(e.term, "point_towards")]
+            found.append(", ".join(show(c)[:90] for c in cs + pt) or "nothing")
+            if len(cs) == 1 and not pt:
+                kw = dict(cs[0][3])
+                vals = list(cs[0][2])
+                e_ = kw.get("endpoint", vals[0] if vals else None)
+                l_ = kw.get("pointers", vals[1] if len(vals) > 1 else None)
+                okg = okg and e_ == ge and l_ is not None and l_[0] in ("list", "tuple") and tuple(l_[1]) == (gp,)
+            elif len(pt) == 1 and not cs:
+                okg = okg and pt[0][1] == ("attr", ge, "point_towards") and (list(pt[0][2]) + [v for _, v in pt[0][3]]) == [gp]
+            else:
+                okg = False
+        rep.check(okg, "C02.L9", "CircuitGraphBranch.append_pointer_to", g.loc, found=found, required="append_pointers_to(endpoint=endpoint, pointers=[pointer])",
+                  what="the single-node append does not hand exactly the given node to the given endpoint", detail="single")
+    n_nodes = 0
+    for cname in ("GraphNode", "EndpointNode", "EntrypointNode", "Endpoint", "Entrypoint"):
+        N = model.maybe_cls(cname)
+        if N is None:
+            continue
+        pt = N.own_function("point_towards") if hasattr(N, "own_function") else None
+        if pt is not None and "abstractmethod" not in pt.decorators:
+            n_nodes += 1
+            pn = sym([n for n in pt.param_names if n != pt.self_name][0])
+            s_ = sym(pt.self_name)
+            pps = [p for p in PathEnumerator(Evaluator(model, inline_methods=False)).function_paths(pt, self_cls=N)]
+            okp = bool(pps)
+            for p in pps:
+                effs = [e.term for e in p.events if e.kind == "effect" and e.term is not None]
+                app = [t for t in effs if t[0] == "call" and t[1] == ("attr", ("attr", s_, "_outgoing_pointers"), "append") and list(t[2]) == [pn]]
+                upd = [c for t in effs for c in find_calls(t, "update_set_incoming_pointer") if c[1] == ("attr", pn, "update_set_incoming_pointer") and (list(c[2]) + [v for _, v in c[3]]) == [s_]]
+                okp = okp and p.exit in ("fall", "return") and len(app) == 1 and len(upd) == 1 and p.cond == TRUE
+            rep.check(okp, "C02.L9", f"{cname}.point_towards", pt.loc, found=[[show(e.term)[:70] for e in p.events if e.kind == "effect"] for p in pps],
+                      required="self._outgoing_pointers.append(pointer); pointer.update_set_incoming_pointer(pointer=self) -- unconditional",
+                      what="a successor is not recorded unconditionally on both ends", detail=f"point:{cname}")
+        us = N.own_function("update_set_incoming_pointer") if hasattr(N, "own_function") else None
+        if us is not None and "abstractmethod" not in us.decorators and cname == "GraphNode":
+            un = sym([n for n in us.param_names if n != us.self_name][0])
+            s_ = sym(us.self_name)
+            ups = [p for p in PathEnumerator(Evaluator(model, inline_methods=False)).function_paths(us, self_cls=N)]
+            oku = bool(ups)
+            for p in ups:
+                effs = [e.term for e in p.events if e.kind == "effect" and e.term is not None]
+                app = [t for t in effs if t[0] == "call" and t[1] == ("attr", ("attr", s_, "_incoming_pointers"), "append") and list(t[2]) == [un]]
+                oku = oku and len(app) == 1 and p.cond == TRUE
+            rep.check(oku, "C02.L9", f"{cname}.update_set_incoming_pointer", us.loc, found=[[show(e.term)[:70] for e in p.events if e.kind == "effect"] for p in ups],
+                      required="self._incoming_pointers.append(pointer) -- unconditional", what="a predecessor is not recorded unconditionally", detail=f"incoming:{cname}")
+        gn_ = N.own_function("get_next_pointers") if hasattr(N, "own_function") else None
+        if gn_ is not None and "abstractmethod" not in gn_.decorators and cname == "GraphNode":
+            v = Evaluator(model).value_of(gn_, self_cls=N)
+            okn = v in (("attr", sym(gn_.self_name), "_outgoing_pointers"), ("attr", sym(gn_.self_name), "outgoing_pointers"))
+            rep.check(okn, "C02.L9", f"{cname}.get_next_pointers", gn_.loc, found=show(v), required="self._outgoing_pointers (all successors)", what="the traversal is not handed every successor of a node", detail="next")
+    rep.floor("node classes with point_towards", n_nodes, 1)
+
+
+def find_calls_in_loop(lp, name: str) -> bool:
+    from ..paths import find_calls
+    return any(find_calls(e.term, name) for bp in lp.extra["paths"] for e in bp.events if e.term is not None)
